@@ -1339,6 +1339,12 @@ func main() {
 		var c Case
 		r.LoadReplay(&c)
 		switch c.Kind {
+		case "search": // a case of a search leg (search.go): regenerated from its parameters
+			var sc SCase
+			r.LoadReplay(&sc)
+			replaySearch(r, sc)
+			r.Sample(sc)
+			return
 		case "deque":
 			dequeCase(r, c.Ops)
 		case "uq":
@@ -1437,6 +1443,19 @@ func main() {
 			r.Sample(Case{Kind: "cqseq", Ops: ops[:min(len(ops), 25)]})
 		}
 		cqSeqCase(r, ops)
+	}
+
+	// --- failing-input search legs (search.go). They run before the free-running goroutine cases: a forced schedule
+	// (stalled lock holder) gives a replay that reproduces, a lucky free-running one may not.
+	if r.Search {
+		if r.Failed() {
+			r.Note("search legs not run: the thorough generators already produced a failing input")
+		} else {
+			searchLegs(r)
+		}
+		if r.Failed() {
+			return
+		}
 	}
 
 	// --- concurrent queue: real goroutines
